@@ -10,6 +10,8 @@ SUMMARY = {}   # optional one-line descriptions, filled from notes.txt's first p
 
 def main():
     rows = []
+    mxp = os.path.join(VERIF, 'seeded', 'MATRIX.json')
+    matrix = json.load(open(mxp)) if os.path.exists(mxp) else {}
     for name in sorted(os.listdir(os.path.join(VERIF, 'seeded'))):
         mp = os.path.join(VERIF, 'seeded', name, 'meta.json')
         if not os.path.exists(mp):
@@ -34,12 +36,24 @@ def main():
             if os.path.exists(np_):
                 txt = ' '.join(open(np_).read().split())
                 desc = txt[:230] + ('…' if len(txt) > 230 else '')
-        rows.append('| %s | `%s` | %s | %s | %s | %s |' % (
+        stage_txt = '+'.join(stages) or ('-' if not m.get('detected') else '?')
+        kind_txt = kind.group(1) if kind else ('no-failing-input-found' if m.get('detected') else 'MISSED')
+        also = ''
+        mx = matrix.get(name)
+        if mx:      # the state AFTER strengthening: tools/seeded_matrix.py runs the current checks against every filed change
+            own = mx['checks'].get(mx['property'], {})
+            row = own.get('1') or (list(own.values())[0] if own else None)
+            if row:
+                stage_txt = '+'.join(row['stages']) or '-'
+                kind_txt = row['kind'] or ('no-failing-input-found' if row['violation'] else 'MISSED')
+            also = ', '.join('%s (%s)' % (p, '+'.join(next(iter(r.values()))['stages'])) for p, r in sorted(mx['checks'].items())
+                             if p != mx['property'] and any(x['violation'] for x in r.values()))
+        first = 'first run: ' + ('+'.join(stages) if stages else 'MISSED')
+        rows.append('| %s | `%s` | %s | %s | %s | %s | %s | %s |' % (
             m['property'], name, desc.replace('|', '/'),
-            'yes' if m.get('confirmed') else 'NO', '+'.join(stages) or ('-' if not m.get('detected') else '?'),
-            (kind.group(1) if kind else ('no-failing-input-found' if m.get('detected') else 'MISSED'))))
-    table = ('| prop | seeded change | what it is / what it needs to manifest | confirmed (tests pass, demo flips) | caught by stage | failing-input kind |\n'
-             '|---|---|---|---|---|---|\n' + '\n'.join(rows))
+            'yes' if m.get('confirmed') else 'NO', stage_txt, kind_txt, also or '—', first))
+    table = ('| prop | seeded change | what it is / what it needs to manifest | confirmed (tests pass, demo flips) | caught by stage (now) | failing-input kind | also caught by the check of | when first run |\n'
+             '|---|---|---|---|---|---|---|---|\n' + '\n'.join(rows))
     open(os.path.join(VERIF, 'seeded', 'README.md'), 'w').write('# Independently seeded breaking changes\n\n' + table + '\n')
     dp = os.path.join(VERIF, 'DESIGN.md')
     s = open(dp).read()
